@@ -215,11 +215,13 @@ SigClauses(env, g, b) == [
     SigReturnType    |-> TypeOK(env, NoCtx, g.rtype, b.return_type) ]
 SigNames == {"SigMayReturnNull", "SigCallerOwns", "SigSkipReturn", "SigInstanceTransfer", "SigThrows", "SigArgsInOrder", "SigReturnType"}
 
-\* start_return_value + the four signature writers of _g_ir_node_build_typelib (which differ!)
-BuildSig(env, g) ==
+\* start_return_value + the four signature writers of _g_ir_node_build_typelib.
+\* dev = what-if switches: behaviours of EARLIER versions of the code, each repaired by a fix: commit
+\*   "skip_only_function": only the FUNCTION writer copied skip_return (before ca5fac5)
+BuildSig(env, g, dev) ==
     [may_return_null |-> B(g.nullable = "1"),
      caller_owns_return_value |-> B(g.transfer = "full"), caller_owns_return_container |-> B(g.transfer = "container"),
-     skip_return |-> IF g.ckind \in {"function", "method", "constructor"} THEN B(g.skip = "1") ELSE 0,   \* only FUNCTION writes it
+     skip_return |-> IF "skip_only_function" \in dev /\ g.ckind \notin {"function", "method", "constructor"} THEN 0 ELSE B(g.skip = "1"),
      instance_transfer_ownership |-> IF g.ckind = "callback" THEN 0 ELSE B(g.inst = "full"),
      throws |-> IF g.ckind = "signal" THEN 0 ELSE B(g.throws = "1"),
      n_arguments |-> Len(g.params), arg_names |-> g.params, return_type |-> BuildType(env, NoCtx, g.rtype)]
@@ -273,11 +275,12 @@ PropertyClauses(env, g, b) == [
     PropType      |-> TypeOK(env, NoCtx, g.type, b.type) ]
 PropertyNames == {"PropName", "PropDeprecated", "PropFlags", "PropTransfer", "PropSetter", "PropGetter", "PropType"}
 
-BuildProperty(env, g) ==
+\*   "prop_deprecated_unread": start_property did not read deprecated= (before 43698fe)
+BuildProperty(env, g, dev) ==
     LET si == IF g.setter # "" THEN IndexOf(g.methods, g.setter) % 1024 ELSE Sentinel
         gi == IF g.getter # "" THEN IndexOf(g.methods, g.getter) % 1024 ELSE Sentinel
         tr == IF g.transfer = "full" THEN <<1, 0>> ELSE IF g.transfer = "container" THEN <<0, 1>> ELSE <<0, 0>>   \* absent = none
-    IN [name |-> g.name, deprecated |-> 0,       \* start_property does not read deprecated=
+    IN [name |-> g.name, deprecated |-> (IF "prop_deprecated_unread" \in dev THEN 0 ELSE B(g.deprecated # "")),
         readable |-> B(g.readable = "" \/ g.readable = "1"), writable |-> B(g.writable = "1"),
         construct |-> B(g.construct = "1"), construct_only |-> B(g.construct_only = "1"),
         transfer_ownership |-> tr[1], transfer_container_ownership |-> tr[2],
@@ -353,7 +356,10 @@ BuildValue(g) == [name |-> g.name, value32 |-> Low32(g.v), unsigned_value |-> B(
 
 (* Constant: g = [name, deprecated, value (canonical text), type];  b = [name, deprecated, value (decoded text), size, type] *)
 ConstSizeOfTag(t) == CASE t = 1 -> 4 [] t \in {2, 3} -> 1 [] t \in {4, 5} -> 2 [] t \in {6, 7} -> 4 [] t \in {8, 9} -> 8
-                       [] t = 10 -> 4 [] t = 11 -> 8 [] OTHER -> -1
+                       [] t = 10 -> 4 [] t = 11 -> 8 [] t = 21 -> 4 [] OTHER -> -1
+\* the constant writer of _g_ir_node_build_typelib; "no_unichar_constant": no case for gunichar, size stayed 0 and the compiler's
+\* own validator then refused the file (before 403fa2b)
+BuildConstSize(t, dev) == IF t = 21 /\ "no_unichar_constant" \in dev THEN 0 ELSE ConstSizeOfTag(t)
 ConstantClauses(env, g, b) == [
     ConstName       |-> b.name = g.name,
     ConstDeprecated |-> Dep(g.deprecated, b.deprecated),
@@ -449,6 +455,16 @@ AttrPairs(s) == {<<s[i].name, s[i].value>> : i \in 1..Len(s)}
 AttributeLookup(table, off) == {<<table[i].name, table[i].value>> : i \in {j \in 1..Len(table) : table[j].offset = off}}
 AttrClauses(g, b) == [ Attributes |-> AttrPairs(b.attrs) = AttrPairs(g.attrs) /\ Len(b.attrs) = Cardinality(AttrPairs(g.attrs)) ]
 AttrNames == {"Attributes"}
+(* where the parser attaches an <attribute> child and whether the builder emits it; role = position of the element that carries it. *)
+(*   "attrs_to_container": attributes of fields, properties, member constants and enumeration members went to the container       *)
+(*                         (before f9052ff);  "cb_return_attrs_dropped": the CALLBACK and VFUNC writers did not register the      *)
+(*                         return value's attributes (before 803c7ba)                                                             *)
+AttrRoles == {"entry", "callable", "param", "return_function", "return_signal", "return_callback", "return_vfunc", "field", "property",
+              "member_constant", "enum_member"}
+BuildAttrs(role, g, dev) ==
+    [attrs |-> IF role \in {"field", "property", "member_constant", "enum_member"} /\ "attrs_to_container" \in dev THEN <<>>
+               ELSE IF role \in {"return_callback", "return_vfunc"} /\ "cb_return_attrs_dropped" \in dev THEN <<>>
+               ELSE g.attrs]
 
 ---------------------------------------------------------------------------
 (* Part 2: layout.  Blob sizes as gitypelib-internal.h defines the structs. *)
